@@ -11,6 +11,8 @@
     run through the real skool2html.main; every written page is tokenised with html.parser; spec/boxpage/BoxCases.tla computes from
     the section blocks what the documentation says the page contains (which sections, order, anchors, titles, table of contents,
     paragraphs / list tree, title, header, link text, path, scripts) and compares (TLC decides).
+A section with a blank line before an indented item is judged in full against "Blank lines between items are optional and are
+ignored" (the tree without the blank lines; ListItems, and BulletPoints by analogy): clause list:<type>:blank-line-before-subitem.
 What the documentation does not state (indentation unit other than the 2 of the examples, indentation that goes back to a column
 between two open levels, continuation lines not aligned with the item text, a blank line inside an item, a box page without
 entries) is drift when skoolkit's present choice changes, never a violation.
@@ -34,7 +36,7 @@ DROP = ('feat', 'files', 'k', 'hasindex', 'blocks', 'game', 'gjs', 'key')
 
 REQUIRED = ['box::written', 'box:ListItems:written', 'box:BulletPoints:written', 'li:depth>=3', 'bp:depth>=3', 'li:depth>=4',
             'li:up-by-two-levels-or-more', 'bp:up-by-two-levels-or-more', 'li:deeper-by-two-units', 'bp:deeper-by-two-units',
-            'bp:continuation', 'li:blank-between-items', 'bp:blank-between-items', 'li:blank-before-subitem', 'trailing-blank-lines',
+            'bp:continuation', 'li:blank-between-items', 'bp:blank-between-items', 'li:blank-before-subitem', 'bp:blank-before-subitem', 'trailing-blank-lines',
             'li:intro-hyphen', 'bp:intro-hyphen', 'li:intro-only', 'para:several', 'page:custom-box', 'custom:with-entries', 'builtin:with-entries',
             'box:empty:builtin', 'box:empty:custom', 'page:PageContent', 'page:Content', 'page:Content+SectionPrefix', 'page:SectionPrefix+PageContent',
             'page:JavaScript', 'game:JavaScript', 'append:+', 'append:in-later-file', 'anchor:given', 'anchor:default', 'anchor:macro',
@@ -124,6 +126,10 @@ def run(tier):
     empty = [x for x in REQUIRED if not cnt[x]]
     if empty:
         raise MachineryError('E09 vacuity: no generated site has: %s' % empty)
+    # the rule "blank lines between items are ignored" is judged in full where it matters: such sections must be frequent
+    rare = [x for x in ('li:blank-before-subitem', 'bp:blank-before-subitem') if cnt[x] < nsites // 20]
+    if rare:
+        raise MachineryError('E09 vacuity: fewer than 5%% of the sites have: %s (%s)' % (rare, [cnt[x] for x in rare]))
     rep.nontrivial_count = sum(1 + len(c['obs']['ents']) for c in cases if c['obs']['wr'])
     # ---- TLC judges: one case per site (blocks once, the pages one by one)
     fails, drift = {}, Counter()
